@@ -496,6 +496,26 @@ Definition sync_ipam (f : cfg) (w : world)
   let c4 := fold_left (fun c n => mark_clean n c) rel_nodes c3 in
   (c4, {| so_rel := opts; so_rba := rba; so_rha := rel_nodes |}).
 
+(* ---------- syncIPAM when ReleaseIPs reports an error ----------
+   The IPAM client hands back the options it did release ([done]); those allocations are forgotten, the others stay in
+   confirmedLeaks; garbageCollectKnownLeaks returns the error and syncIPAM returns right there: no cold-IP GC, no
+   releaseUnusedBlocks, no releaseNodes (the nodes to release stay dirty). *)
+Definition gc_known_leaks_part (fx : bool) (w : world) (max_batch : N) (order : list id) (done : relopt -> bool)
+           (c : ctrl) : ctrl * list relopt :=
+  if fx then
+    let c1 := fold_left (gc_revalidate w) order c in
+    let opts := map (opt_of c1) (gc_assemble max_batch (gc_candidates c1 order)) in
+    (fold_left release_opt (filter done opts) c1, opts)
+  else
+    let '(c1, opts, _) := fold_left (gc_visit w max_batch) order (c, [], false) in
+    (fold_left release_opt (filter done opts) c1, opts).
+
+Definition sync_ipam_failed (f : cfg) (w : world) (norder : list N) (gorder : ctrl -> list id)
+           (done : relopt -> bool) (c : ctrl) : ctrl * sync_out :=
+  let '(c1, _) := check_nodes w (f_grace f) norder (set_full c false) in
+  let '(c2, opts) := gc_known_leaks_part (f_fixgc f) w (f_batch f) (gorder c1) done c1 in
+  (c2, {| so_rel := opts; so_rba := []; so_rha := [] |}).
+
 (* ---------- events ---------- *)
 
 Inductive event :=
